@@ -92,6 +92,9 @@ def load_main(world, blobs_path, outp):
     U._registered = True
     reg = WORLDS[world]
     with open(outp, 'w') as fh:
+        if os.path.exists(blobs_path + '.dual'):
+            register_dual()
+            fh.write(json.dumps(dual_case(f'fresh-process-{world}', bytes.fromhex(open(blobs_path + '.dual').read()))[0]) + '\n')
         for line in open(blobs_path):
             b = json.loads(line)
             ctx = U.Ctx()
@@ -120,6 +123,48 @@ def load_main(world, blobs_path, outp):
                 case['fresh'] = {'spec': U.project_spec(fresh), 'eq': fresh == loaded1 and loaded1 == fresh, 'hash_eq': hash(fresh) == hash(loaded1),
                                  'same_class': all(vis(reg, c) == vis(U.REG0, c) for c in used) and not cfg['haspred']}
             fh.write(json.dumps(case, separators=(',', ':')) + '\n')
+
+
+class Dual(U._CustomBase):
+    """registered BOTH globally and in namespace 'dual', with different flatten functions: a pickled treespec must be re-bound to the
+    registration of its recorded namespace (which shadows the global one), in this and in a fresh process"""
+
+
+def _dual_flatten_global(x):
+    return tuple(reversed(x.children)), ('meta', 100 + x.meta)
+
+
+def _dual_flatten_ns(x):
+    return tuple(x.children), ('meta', x.meta), tuple(range(10, 10 + len(x.children)))
+
+
+def _dual_unflatten(meta, children):
+    return Dual(list(children), meta[1])
+
+
+def register_dual():
+    optree.register_pytree_node(Dual, _dual_flatten_global, _dual_unflatten, namespace=U.GLOBAL_NAMESPACE)
+    optree.register_pytree_node(Dual, _dual_flatten_ns, _dual_unflatten, namespace='dual')
+
+
+def dual_case(where, blob=None):
+    """returns the case dict; when blob is None it is created here (same-process variant) and returned hex-encoded as well"""
+    tree = {'k': Dual([U.Leaf(3), (U.Leaf(4), None)], 7), 'j': [Dual([U.Leaf(0)], 8)]}
+    fresh_ns = optree.tree_structure(tree, namespace='dual')
+    fresh_gl = optree.tree_structure(tree)
+    if blob is None:
+        blob = pickle.dumps(fresh_ns)
+    loaded = pickle.loads(blob)
+    rebuilt = loaded.unflatten(list(range(loaded.num_leaves)))
+    expect = fresh_ns.unflatten(list(range(fresh_ns.num_leaves)))
+
+    def shape(x):
+        return [(c.children, c.meta) if isinstance(c, Dual) else c for c in optree.tree_leaves(x, is_leaf=lambda y: isinstance(y, Dual))]
+    return {'op': 'pickle-dual', 'where': where,
+            'bound_to_namespace_registration': loaded == fresh_ns and hash(loaded) == hash(fresh_ns) and fresh_ns == loaded,
+            'not_the_global_registration': loaded != fresh_gl,
+            'paths': loaded.paths() == fresh_ns.paths() and loaded.entries() == fresh_ns.entries(),
+            'unflatten': shape(rebuilt) == shape(expect), 'repr': repr(loaded) == repr(fresh_ns)}, blob.hex()
 
 
 def malformed_main(outp):
@@ -169,12 +214,16 @@ def main():
     if mode == 'dump':
         inp, blobs, outp = sys.argv[2:5]
         lines = list(open(inp))
+        register_dual()
+        dcase, dblob = dual_case('same-process')
+        open(blobs + '.dual', 'w').write(dblob)
         with mp.Pool(int(os.environ.get('VERIF_PROCS', '16')), initializer=U.setup_world) as pool, open(outp, 'w') as fc, open(blobs, 'w') as fb:
             for cs, bs in pool.imap(dump_work, lines, chunksize=16):
                 for c in cs:
                     fc.write(c + '\n')
                 for b in bs:
                     fb.write(b + '\n')
+            fc.write(json.dumps(dcase) + '\n')
     elif mode == 'load':
         load_main(sys.argv[2], sys.argv[3], sys.argv[4])
     elif mode == 'malformed':
